@@ -799,6 +799,15 @@ impl<'tcx> Exporter<'tcx> {
                                 o.push(("resolved", s(self.path(inst.def_id()))));
                                 o.push(("resolved_dp", s(self.dp(inst.def_id()))));
                                 o.push(("resolved_inst", s(self.path_args(inst.def_id(), inst.args))));
+                                // type arguments of the function that actually runs (an impl method lists its impl's
+                                // parameters first, unlike the trait method the call site names)
+                                let rsub: Vec<J> = inst
+                                    .args
+                                    .iter()
+                                    .filter_map(|a| a.as_type())
+                                    .map(|t| J::obj(vec![("ty", s(self.ty_str(t)))]))
+                                    .collect();
+                                o.push(("resolved_substs", J::Arr(rsub)));
                             }
                             _ => {
                                 o.push(("res_kind", s("unresolved")));
